@@ -111,6 +111,8 @@ def convert_grid_2d(
     is_native = len(grid_2d.shape) == 3
 
     if is_native:
+        # Copy so the masking below does not zero entries of the array passed in by the caller.
+        grid_2d = grid_2d.copy()
         grid_2d[:, :, 0] *= np.invert(mask_2d)
         grid_2d[:, :, 1] *= np.invert(mask_2d)
 
